@@ -566,6 +566,14 @@ class EndpointResponseHandlerGenerator:
                 writer.write_line("yield chunk")
                 writer.dedent()
                 writer.write_line("return  # Explicit return for async generator")
+            elif strategy.response_ir is not None and strategy.response_ir.stream_format == "ndjson":
+                # Newline-delimited JSON: one record per line (the SSE decoder below would find no `data:` field and yield nothing)
+                context.add_import(f"{context.core_package_name}.streaming_helpers", "iter_ndjson")
+                writer.write_line("async for item in iter_ndjson(response):")
+                writer.indent()
+                writer.write_line("yield item")
+                writer.dedent()
+                writer.write_line("return  # Explicit return for async generator")
             else:
                 # Handle other streaming types
                 context.add_plain_import("json")
